@@ -936,7 +936,43 @@ func TailProgram(t *rapid.T, p Profile) *Case {
 		b.Construct()
 	}
 	b.Tail()
-	switch rapid.IntRange(0, 3).Draw(t, "exit") {
+	switch rapid.IntRange(0, 4).Draw(t, "exit") {
+	case 4:
+		// an early ret on the fall-through path of a taken branch whose operand
+		// is loaded right before it: the branch resolves long after the ret was
+		// fetched; the run goes on at the target and ends there
+		if !b.Valid() {
+			b.emit(ref.Ins{Op: "ret"})
+			break
+		}
+		rx := b.dest("erx")
+		ea := b.addr(4, "erea")
+		base, off := b.baseFor(ea)
+		b.emit(ref.Ins{Op: "lw", Rd: rx, Rs1: base, Imm: off})
+		st := b.State()
+		in := ref.Ins{Op: rapid.SampledFrom(condOps).Draw(t, "ercond"), Rs1: rx, Rs2: b.reg("ery")}
+		if ref.Shape(in.Op) == ref.ShapeBr1 {
+			in.Rs2 = 0
+		}
+		if st.Err == nil && !ref.Cond(in.Op, st.Reg[in.Rs1], st.Reg[in.Rs2]) {
+			in = negate(in)
+		}
+		l := b.label()
+		in.Label = l
+		b.emit(in)
+		b.emit(ref.Ins{Op: "ret"})
+		b.place(l)
+		for k := rapid.IntRange(1, 2).Draw(t, "erafter"); k > 0; k-- {
+			if rapid.Bool().Draw(t, "erstore") {
+				b.Store()
+			} else {
+				b.Alu()
+			}
+		}
+		if rapid.Bool().Draw(t, "erret") {
+			b.emit(ref.Ins{Op: "ret"})
+		}
+		b.Meta["exit_early_ret_skipped"]++
 	case 0, 1:
 		b.emit(ref.Ins{Op: "ret"})
 		b.Meta["exit_ret"]++
@@ -1429,14 +1465,29 @@ func (b *Builder) Behind() {
 		r := b.reg("bcmp")
 		l := b.label()
 		b.emit(ref.Ins{Op: rapid.SampledFrom([]string{"beq", "bge", "bgeu"}).Draw(b.t, "bop"), Rs1: r, Rs2: r, Label: l})
+		shadowLine := int32(-1)
 		for k := rapid.IntRange(1, 2).Draw(b.t, "bshadow"); k > 0; k-- {
-			if rapid.Bool().Draw(b.t, "bnop") {
+			switch rapid.IntRange(0, 3).Draw(b.t, "bshk") {
+			case 0:
 				b.emit(ref.Ins{Op: "nop"})
-			} else {
+			case 1:
 				b.Alu()
+			case 2:
+				// a wrong-path load from the owned line
+				shadowLine = lineA
+				b.emit(ref.Ins{Op: "lw", Rd: b.dest("rd"), Rs1: 0, Imm: word(lineA, "boff")})
+			default:
+				// a wrong-path load from a line nothing has touched (it misses every
+				// cache and is squashed while it waits)
+				shadowLine = (lineB + 1 + rapid.Int32Range(0, lines-2).Draw(b.t, "blineD")) % lines
+				b.emit(ref.Ins{Op: "lw", Rd: b.dest("rd"), Rs1: 0, Imm: word(shadowLine, "boff")})
 			}
 		}
 		b.place(l)
+		if shadowLine >= 0 && rapid.Bool().Draw(b.t, "breload") {
+			// the right path then loads from the line the squashed load was fetching
+			access(word(shadowLine, "boff"), false, 0)
+		}
 	case x < 9:
 		l := b.label()
 		b.emit(ref.Ins{Op: "j", Label: l})
